@@ -8,7 +8,7 @@
 
 use serde_json::{json, Value};
 
-use rs_matter::tlv::{TLVElement, TLVTag, TLVValue, TLVWrite};
+use rs_matter::tlv::{FromTLV, Nullable, TLVElement, TLVTag, TLVValue, TLVWrite, ToTLV};
 use rs_matter::utils::storage::WriteBuf;
 
 use crate::util::{arg, catch, read_ndjson, Trace};
@@ -157,6 +157,144 @@ fn poke(b: &[u8]) -> Result<(), String> {
     Ok(())
 }
 
+#[derive(Debug, PartialEq, Clone, ToTLV, FromTLV)]
+struct Ints {
+    a: i64,
+    b: u64,
+    c: i32,
+    d: u32,
+    e: i16,
+    f: u16,
+    g: i8,
+    h: u8,
+    n: Nullable<i64>,
+    o: Option<u64>,
+}
+
+/// What an encoded integer element denotes according to the grammar (type code -> width; two's complement / unsigned).
+fn ref_decode_int(b: &[u8]) -> Option<(bool, [u8; 8])> {
+    let ty = b.first()? & 0x1f;
+    if ty > 7 || b[0] >> 5 != 0 {
+        return None;
+    }
+    let w = 1usize << (ty & 3);
+    if b.len() != 1 + w {
+        return None;
+    }
+    let signed = ty < 4;
+    let fill = if signed && b[w] >= 128 { 0xff } else { 0 };
+    let mut v = [fill; 8];
+    v[..w].copy_from_slice(&b[1..1 + w]);
+    Some((signed, v))
+}
+
+/// Integer values through the value-typed entry points of the writer, the primitive and the derived encoders.
+fn run_ints(path: &str, tr: &mut Trace) -> (usize, usize) {
+    let vals = read_ndjson(path);
+    let (mut n, mut bad) = (0usize, 0usize);
+    for v in vals.iter() {
+        let b8: [u8; 8] = bytes_of(&v["v"]).try_into().unwrap();
+        let (sv, uv) = (i64::from_le_bytes(b8), u64::from_le_bytes(b8));
+        let fits_s = |w: u64| v["fitsS"][w.to_string()].as_bool().unwrap();
+        let fits_u = |w: u64| v["fitsU"][w.to_string()].as_bool().unwrap();
+        let t = TLVTag::Anonymous;
+        type W<'a> = WriteBuf<'a>;
+        let mut cases: Vec<(&str, bool, Box<dyn Fn(&mut W) -> Result<(), rs_matter::error::Error>>)> = Vec::new();
+        cases.push(("i64", true, Box::new(move |w| w.i64(&TLVTag::Anonymous, sv))));
+        cases.push(("i64.to_tlv", true, Box::new(move |w| sv.to_tlv(&TLVTag::Anonymous, w))));
+        if fits_s(4) {
+            cases.push(("i32", true, Box::new(move |w| w.i32(&TLVTag::Anonymous, sv as i32))));
+            cases.push(("i32.to_tlv", true, Box::new(move |w| (sv as i32).to_tlv(&TLVTag::Anonymous, w))));
+        }
+        if fits_s(2) {
+            cases.push(("i16", true, Box::new(move |w| w.i16(&TLVTag::Anonymous, sv as i16))));
+            cases.push(("i16.to_tlv", true, Box::new(move |w| (sv as i16).to_tlv(&TLVTag::Anonymous, w))));
+        }
+        if fits_s(1) {
+            cases.push(("i8", true, Box::new(move |w| w.i8(&TLVTag::Anonymous, sv as i8))));
+        }
+        cases.push(("u64", false, Box::new(move |w| w.u64(&TLVTag::Anonymous, uv))));
+        cases.push(("u64.to_tlv", false, Box::new(move |w| uv.to_tlv(&TLVTag::Anonymous, w))));
+        if fits_u(4) {
+            cases.push(("u32", false, Box::new(move |w| w.u32(&TLVTag::Anonymous, uv as u32))));
+            cases.push(("u32.to_tlv", false, Box::new(move |w| (uv as u32).to_tlv(&TLVTag::Anonymous, w))));
+        }
+        if fits_u(2) {
+            cases.push(("u16", false, Box::new(move |w| w.u16(&TLVTag::Anonymous, uv as u16))));
+            cases.push(("u16.to_tlv", false, Box::new(move |w| (uv as u16).to_tlv(&TLVTag::Anonymous, w))));
+        }
+        if fits_u(1) {
+            cases.push(("u8", false, Box::new(move |w| w.u8(&TLVTag::Anonymous, uv as u8))));
+        }
+        let _ = t;
+        for (name, signed, f) in cases {
+            n += 1;
+            let mut buf = [0u8; 32];
+            let r = catch(|| {
+                let mut w = WriteBuf::new(&mut buf);
+                f(&mut w).map(|_| w.get_tail())
+            });
+            let mut msg = String::new();
+            let ok = match r {
+                Err(m) => { msg = format!("PANIC {m}"); false }
+                Ok(Err(e)) => { msg = format!("writer error {:?}", e.code()); false }
+                Ok(Ok(len)) => {
+                    let b = &buf[..len];
+                    // 1. what the bytes denote per the grammar must be the value written
+                    let denotes = ref_decode_int(b);
+                    // 2. what the real reader returns must be the value written
+                    let el = TLVElement::new(b);
+                    let back = catch(|| if signed { el.i64().map(|x| x.to_le_bytes()) } else { el.u64().map(|x| x.to_le_bytes()) });
+                    let back_ok = matches!(&back, Ok(Ok(x)) if *x == b8);
+                    let den_ok = matches!(denotes, Some((s, x)) if s == signed && x == b8);
+                    if !den_ok { msg += &format!("bytes {:?} denote {:?}; ", b, denotes); }
+                    if !back_ok { msg += &format!("reader returns {:?}; ", back.map(|r| r.map_err(|e| e.code()))); }
+                    den_ok && back_ok
+                }
+            };
+            if !ok { bad += 1; }
+            tr.ev(json!({"ev": "Int", "v": b8, "entry": name, "ok": ok, "msg": msg}));
+        }
+        // derived structure carrying the value in every field that can hold it
+        n += 1;
+        let s = Ints {
+            a: sv, b: uv,
+            c: if fits_s(4) { sv as i32 } else { i32::MIN }, d: if fits_u(4) { uv as u32 } else { u32::MAX },
+            e: if fits_s(2) { sv as i16 } else { i16::MAX }, f: if fits_u(2) { uv as u16 } else { u16::MAX },
+            g: if fits_s(1) { sv as i8 } else { i8::MIN }, h: if fits_u(1) { uv as u8 } else { 0x80 },
+            // a nullable integer cannot hold the type's null sentinel (Matter data model): not a value of that type
+            n: Nullable::some(if sv == i64::MIN { 0 } else { sv }), o: Some(uv),
+        };
+        let mut buf = [0u8; 256];
+        let r = catch(|| {
+            let mut w = WriteBuf::new(&mut buf);
+            s.to_tlv(&TLVTag::Anonymous, &mut w).map(|_| w.get_tail())
+        });
+        let (ok, msg) = match r {
+            Err(m) => (false, format!("PANIC {m}")),
+            Ok(Err(e)) => (false, format!("encoder error {:?}", e.code())),
+            Ok(Ok(len)) => {
+                let b = buf[..len].to_vec();
+                match catch(|| Ints::from_tlv(&TLVElement::new(&b))) {
+                    Err(m) => (false, format!("PANIC in decoder {m}")),
+                    Ok(Err(e)) => (false, format!("decoder error {:?}", e.code())),
+                    Ok(Ok(back)) => {
+                        let mut buf2 = [0u8; 256];
+                        let mut w2 = WriteBuf::new(&mut buf2);
+                        let re = back.to_tlv(&TLVTag::Anonymous, &mut w2).map(|_| w2.get_tail());
+                        let same_bytes = matches!(re, Ok(l2) if buf2[..l2] == b[..]);
+                        if back != s { (false, format!("decoded {:?} != encoded {:?}", back, s)) }
+                        else if !same_bytes { (false, "re-encoding differs".into()) } else { (true, String::new()) }
+                    }
+                }
+            }
+        };
+        if !ok { bad += 1; }
+        tr.ev(json!({"ev": "Int", "v": b8, "entry": "derived-struct", "ok": ok, "msg": msg}));
+    }
+    (n, bad)
+}
+
 pub fn run(args: &[String]) -> i32 {
     std::panic::set_hook(Box::new(|_| {}));
     let vals = read_ndjson(&arg(args, "--behaviours").expect("--behaviours"));
@@ -207,7 +345,8 @@ pub fn run(args: &[String]) -> i32 {
             }
         }
     }
+    let (n_int, bad_int) = match arg(args, "--ints") { Some(p) => run_ints(&p, &mut tr), None => (0, 0) };
     tr.finish();
-    println!("{}", json!({"values": vals.len(), "inputs": n_in, "bad": n_bad}));
+    println!("{}", json!({"values": vals.len(), "inputs": n_in, "bad": n_bad, "int_cases": n_int, "int_bad": bad_int}));
     0
 }
